@@ -37,6 +37,18 @@ CHECKS = {
             "Histories of length <= 16 (random) and all histories of length <= 2/3 over a reduced alphabet, "
             "4 algorithms x 2 entry points, regular and singular systems; exploration of the history space.",
             "DESIGN.md §2 C04", TRUST),
+    "C06": ("relational monitor on the real gama-local binary (ASan/UBSan build): error-free surveys derived from "
+            "generated true coordinates, variants of approximate coordinates (exact / perturbed / omitted) and of "
+            "instrument/target heights; oracle = the generating coordinates; trace hooks prove nothing was removed",
+            "Each generated consistent network must come back with the generating coordinates (1e-6 m) and zero "
+            "residuals; sampled networks: exploration.",
+            "DESIGN.md §2 C06", TRUST),
+    "C18": ("reference-model monitor: ellipsoid conversions vs the closed formula in extended precision, strict parser "
+            "of printed angle strings, exhaustive enumeration of short literal strings vs reference regular expressions, "
+            "bearing/distance identities; all through the sanitized libdrv",
+            "Grid + adversarial values for the continuous functions, exhaustive strings up to length 7/8 over two "
+            "9-letter alphabets for the recognisers; exploration (exhaustive on the finite sub-space).",
+            "DESIGN.md §2 C18", TRUST),
 }
 
 NOT_APPLICABLE = {}
